@@ -1,15 +1,28 @@
-"""C10 — replies are valid SMTP replies whatever text is embedded (lib/netio.c:net_writen)."""
+"""C10 — replies are valid SMTP replies whatever text is embedded (lib/netio.c:net_writen; every place in qsmtpd/** that builds a reply)."""
+import os, sys
 import runlib as R
+sys.path.insert(0, os.path.join(R.VERIF, 'tools', 'translators'))
 
 ID = 'C10'
-COQ_TARGETS = ['Props/Properties_C10.vo']
+COQ_TARGETS = ['Props/Properties_C10.vo', 'Proofs/NetReadClean.vo']    # the netio extraction (shared with C05) needs the second one
 PROPS_FILES = ['Props/Properties_C10.v']
-THEOREMS = ['C10_net_writen']
+THEOREMS = ['C10_net_writen', 'C10_literal_replies', 'C10_literal_checker_sound', 'C10_templates_ok', 'C10_sites_writen',
+            'C10_multiline_writer', 'C10_sites_multiline', 'C10_dnstxt_clean', 'C10_nomail', 'C10_unpatched_refuted', 'C10_hole_sources']
 ENGINES = [dict(name='netio', c_sources=['netio_h.c'], extract='Extract/Extract_netio.v', driver='netio_driver.ml',
-                accepts=lambda c: c.startswith('aa '))]
-RULE = ('cases = net_writen argument vectors: s[0] from the reply templates found in qsmtpd/**, 1-4 embedded strings of '
+                accepts=lambda c: c.startswith('aa ')),
+           dict(name='replysites', c_sources=['replysites_h.c', 'replysites_real.c', 'replysites_filters.c', 'replysites_owfat.c'],
+                extract='Extract/Extract_replysites.v', driver='replysites_driver.ml', libs=('-lowfat', '-lssl', '-lcrypto'),
+                accepts=lambda c: c[:3] in ('c1 ', 'c2 ', 'c3 '))]
+RULE = ('engine netio: cases = net_writen argument vectors: s[0] from the reply templates found in qsmtpd/**, 1-4 embedded strings of '
         'length 0..4096 with blanks none / every k-th / clustered at offsets 495..515 and 1000..1020 / random; '
-        'non-trivial = the implementation emitted at least two lines (folding happened); distinct by case text')
+        'non-trivial = the implementation emitted at least two lines (folding happened); distinct by case text. '
+        'engine replysites: for every generated template (function, shape) the harness can reach - cb_dnsbl, cb_namebl, cb_spf, addrparse, '
+        'smtp_rcpt (accepted / no such user / no MX / null MX), smtp_from, smtp_helo, smtp_ehlo (8 shapes), smtp_quit - the real call site is driven with '
+        'embedded strings of length 0..4096 (addresses up to the line limit), blanks none / every k-th / clustered at 495..515, all of 32..126; TXT records '
+        '(dns_txt stand-in) and nomail files additionally with CR, LF, CRLF + "250 ok", NUL, DEL, other control octets, 8-bit octets, nomail texts with a '
+        'valid / nearly valid / no reply code in front; three handlers answering with a literal. The reply is captured at write() behind the real lib/netio.c, '
+        'compared with the generated template instantiated through the extracted net_writen / net_write_multiline model, and judged by spec_ok_site / '
+        'spec_ok_nomail / spec_ok_literal. non-trivial = folded or multi-line reply')
 TRUSTED_BASE = [
     'Coq 8.16.1 kernel (coqc; coqchk in thorough); vm_compute in the non-vacuity example only; no native_compute',
     'axioms: none (Print Assumptions: Closed under the global context)',
@@ -17,9 +30,23 @@ TRUSTED_BASE = [
     'hand-written model coq/Model/NetWriten.v tied to lib/netio.c:net_writen by the correspondence run (differential testing, bounded by the generator)',
     'extraction with ExtrOcamlBasic only (no Extract Constant); ocaml/glue.ml + ocaml/netio_driver.ml hex parsing/printing',
     'C harness harness/netio_h.c: #include of lib/netio.c with write()/poll() redirected; gcc 12 -O1 ASan+UBSan vs. production build',
+    'translator tools/translators/replies.py: a small C reader (comments, strings, brace blocks, if/else pairing, straight-line grouping of assignments) that '
+    'finds every netwrite / net_writen / net_write_multiline call in qsmtpd/**/*.c and lib/*.c and the shapes of the arrays; documented as a sound '
+    'over-approximation, anything it cannot follow is an error; the table HOLES (C expression -> source class) is hand-written',
+    'vm_compute for the three finite table checks (forallb over the generated lists) and the two template look-ups of cb_nomail',
+    'class invariants of embedded strings (Spec/ReplySitesSpec.v:class_inv) are HYPOTHESES of C10_sites_writen / C10_sites_multiline; C10_hole_sources derives them '
+    'from the conclusions of C14_oracle_ref, C14_domain, C11_exp_text_clean, C05_line_shape, C10_dnstxt_clean; for HHdrName, HB64, HLibErr (OpenSSL error text), '
+    'HAuthList, HNumCRLF they rest on reading the code (reports/C10-sites.md)',
+    'harness/replysites_*.c: real commands.c, addrparse.c, addrsyntax.c, xtext.c, the four filters, antispam.c, getfile.c, vpop.c, control.c, libowfatconn.c, netio.c; '
+    'stand-ins for DNS (libowfat dns_txt, ask_dnsa, ask_dnsmx), user_exists, rcpt_cbs[], check_host, smtp_authstring, find_servercert, logging, tarpit',
+    'ocaml/replysites_driver.ml: case parsing, "pre" decisions (nothing sent / case names no generated shape / nomail text with NUL, LF or #)',
 ]
 ASSUMPTIONS = [
-    'embedded strings contain no CR/LF (hypothesis no_crlf of the theorem; callers are responsible for it)',
+    'embedded strings contain no CR/LF (hypothesis no_crlf of C10_net_writen; engine replysites shows per call site that the callers meet it: by the class '
+    'of every hole, and for DNS TXT records and the nomail file by the sanitising loops proved in C10_dnstxt_clean / C10_nomail)',
+    'sites not driven by the harness (smtp_data / smtp_bdat error replies, auth_cram, tls_out, tls_err, the greeting in smtploop) are covered by the template '
+    'theorems and the net_writen correspondence only; their templates come from the same translator',
+    'the nomail text reaches cb_nomail as loadonelinerfd() returns it (no NUL, no LF, no #-comment; C16 models that function)',
     's[0] is "NNN" + separator + text, shorter than 510 octets (the asserts in net_writen; checked for every call-site template by the translator)',
     'netnwrite() writes the buffer it is given unchanged (write(2) on the socket is outside the model)',
 ]
@@ -51,7 +78,185 @@ def _text(rng, n, mode):
 S0 = [b'550 5.7.1 ', b'501 5.1.3 ', b'250 2.1.5 recipient <', b'421 ', b'550 5.7.1 mail denied by SPF policy, SPF record says: ',
       b'250 ', b'501 5.5.2 ', b'235 2.7.0 ok, ', b'451 4.3.2 ' + b'x' * 400, b'550 ' + b'y' * 505]
 
+# ------------------------------------------------------------------ engine replysites
+ATEXT = b"abcdefghijklmnopqrstuvwxyz0123456789!#$%&'*+-/=?^_`{|}~"      # lower case: the parser returns the address lower-cased
+LDH = b'abcdefghijklmnopqrstuvwxyz0123456789'
+CLASS_LETTER = {'Addr': 'A', 'Domain': 'D', 'SpfExp': 'S', 'DnsTxt': 'T', 'ConfText': 'C', 'CodePrefix': 'P', 'LineArg': 'L',
+                'HdrName': 'H', 'B64': 'B', 'LibErr': 'E', 'AuthList': 'U', 'NumCRLF': 'N'}
+LENS = [0, 1, 2, 30, 100, 400, 440, 455, 470, 480, 490, 495, 500, 501, 502, 503, 504, 505, 506, 507, 508, 509, 510, 511, 512, 600,
+        1008, 1009, 1010, 1011, 1012, 1013, 1500, 1514, 1515, 1516, 2048, 4095, 4096]
+
+
+def _domain(rng, maxlen):
+    """a name domainvalid() accepts: LDH labels, last label letters only"""
+    want = rng.choice([4, 12, 30, 60, 120, 200, 240, 253, 255])
+    want = max(4, min(want, maxlen))
+    labels = []
+    left = want - 4                      # ".org" style ending
+    while left > 1:
+        k = min(left - 1 if left > 1 else 1, rng.choice([1, 2, 5, 10, 30, 63]))
+        if k < 1:
+            break
+        labels.append(bytes(rng.choice(LDH) for _ in range(k)))
+        left -= k + 1
+    if not labels:
+        labels = [b'bl']
+    return b'.'.join(labels) + b'.' + rng.choice([b'org', b'net', b'com'])
+
+
+def _local(rng, n):
+    b = bytearray(rng.choice(ATEXT) for _ in range(n))
+    for i in range(1, n - 1):
+        if rng.random() < 0.03 and b[i - 1] != 46:
+            b[i] = 46
+    return bytes(b)
+
+
+def _printable(rng, n):
+    mode = rng.choice(['none', 'every', 'cluster', 'random', 'edge'])
+    t = bytearray(_text(rng, n, mode))
+    # all of 32..126, not only the alphabet of _text
+    for i in range(len(t)):
+        if t[i] != 32 and rng.random() < 0.1:
+            t[i] = rng.randrange(33, 127)
+    return bytes(t)
+
+
+def _foreign(rng, n):
+    """text as the DNS / a configuration file can deliver it: printable text with control octets mixed in"""
+    t = bytearray(_printable(rng, n))
+    mode = rng.choice(['clean', 'clean', 'cr', 'lf', 'crlf-inject', 'nul', '8bit', 'ctl', 'mixed'])
+    n = len(t)
+    if n == 0 or mode == 'clean':
+        return bytes(t)
+    for _ in range(rng.choice([1, 1, 2, 5, 20])):
+        i = rng.randrange(n)
+        if mode == 'cr': t[i] = 13
+        elif mode == 'lf': t[i] = 10
+        elif mode == 'crlf-inject':
+            inj = b'\r\n250 ok\r\n'
+            t[i:i + len(inj)] = inj
+        elif mode == 'nul': t[i] = 0
+        elif mode == '8bit': t[i] = rng.randrange(128, 256)
+        elif mode == 'ctl': t[i] = rng.choice([1, 7, 8, 9, 11, 12, 27, 31, 127])
+        else: t[i] = rng.randrange(0, 256)
+    return bytes(t[:max(n, 1)])
+
+
+_ANALYSIS = {}
+def _sites():
+    if R.REPO not in _ANALYSIS:
+        import replies
+        try:
+            _ANALYSIS[R.REPO] = replies.analyse(R.REPO)
+        except Exception as e:                      # the translator error is reported by ./check itself
+            _ANALYSIS[R.REPO] = dict(writen=[], multiline=[], literals=[])
+    return _ANALYSIS[R.REPO]
+
+
+def _len(rng, cap):
+    ln = rng.choice(LENS) if rng.random() < 0.6 else rng.randrange(0, 4097)
+    if rng.random() < 0.25:
+        ln = rng.randrange(0, 60)
+    return min(ln, cap)
+
+
+def _site_case(rng, func, els, line=0):
+    """one case for the call site `func` with the generated shape `els`, or None when the harness cannot reach that shape"""
+    lits = [bytes(e[1]) for e in els if e[0] == 'L']
+    holes = [e for e in els if e[0] == 'H']
+    param = 0
+    vals = []
+    if func in ('cb_dnsbl', 'cb_namebl'):
+        if len(holes) == 1 and len(els) != 2:
+            return None                               # ", message: " without a text: over-approximated shape
+        vals.append(_domain(rng, 200))
+        if len(holes) == 2:
+            t = _foreign(rng, max(1, _len(rng, 4096)))
+            vals.append(t if t else b'x')
+    elif func == 'cb_spf':
+        for h in holes:
+            vals.append(_printable(rng, _len(rng, 4096)))
+    elif func == 'addrparse':
+        vals.append(_local(rng, max(1, _len(rng, 970))) + b'@example.org')
+    elif func == 'smtp_rcpt':
+        first = lits[0] if lits else b''
+        if first.startswith(b'250 '): param = 0
+        elif first.startswith(b'550 5.1.1'): param = 1
+        elif first.startswith(b'451 '): param = 2
+        elif first.startswith(b'556 '): param = 3
+        else:
+            # the text does not tell (it was changed): go by the order of the four calls in smtp_rcpt()
+            sites = sorted({l for k, r, f, l, e in _sites()['writen'] if f == 'smtp_rcpt'})
+            if line not in sites or len(sites) != 4: return None
+            param = [2, 3, 0, 1][sites.index(line)]
+        if param < 2:
+            vals.append(_local(rng, max(1, _len(rng, 970))) + b'@example.org')
+        else:
+            vals.append(_domain(rng, 250))
+    elif func == 'smtp_from_inner':
+        param = rng.choice([0, 1, 2])
+        cap = {0: 470, 1: 480, 2: 950}[param]       # MAIL FROM lines above 510 (+26 with SIZE, +500 with AUTH) octets are refused
+        vals.append(_local(rng, max(1, _len(rng, cap))) + b'@' + _domain(rng, 20))
+    elif func in ('smtp_helo', 'smtp_quit'):
+        vals.append(_domain(rng, 255))
+    elif func == 'smtp_ehlo':
+        if any(l == b'250-CHUNKING\r\n' for l in lits):
+            return None                               # the harness is built like the default configuration, without CHUNKING
+        param = 1 if any(l == b'250-STARTTLS\r\n' for l in lits) else 0
+        for h in holes:
+            if h[1] == 'Domain': vals.append(_domain(rng, 255))
+            elif h[1] == 'AuthList': vals.append(rng.choice([b' LOGIN PLAIN\r\n', b' PLAIN\r\n', b' LOGIN PLAIN CRAM-MD5\r\n']))
+            elif h[1] == 'NumCRLF': vals.append(str(rng.choice([1, 1234567, 2 ** 32 - 1, 2 ** 63, 2 ** 64 - 1])).encode() + b'\r\n')
+            else: return None
+    else:
+        return None
+    out = ['c1', R.hx(func.encode()), '%02x' % param]
+    vi = 0
+    for e in els:
+        if e[0] == 'L':
+            out.append(R.hx(b'L' + bytes(e[1])))
+        else:
+            out.append(R.hx(b'H' + CLASS_LETTER[e[1]].encode() + vals[vi])); vi += 1
+    return ' '.join(out)
+
+
+def _nomail_case(rng):
+    kind = rng.choice(['plain', 'code', 'code', 'nearcode'])
+    n = max(1, _len(rng, 4096))
+    body = _foreign(rng, n).replace(b'\n', b'\r').replace(b'\0', b'\x01').replace(b'#', b'+') or b'x'
+    if kind == 'code':
+        d = rng.choice(b'45')
+        pre = bytes([d, rng.choice(b'0123456789'), rng.choice(b'0123456789'), 32, d, 46, rng.choice(b'0123456789'), 46, rng.choice(b'0123456789'), 32])
+        body = pre + body
+    elif kind == 'nearcode':
+        pre = bytearray(b'550 5.7.1 ')
+        i = rng.randrange(10)
+        pre[i] = rng.choice(b'x 3.-5')
+        body = bytes(pre) + body
+    return 'c2 ' + R.hx(body)
+
+
+def gen_sites(rng, tier):
+    a = _sites()
+    per = 45 if tier == 'quick' else 900
+    out = []
+    for key, rel, func, line, els in a['writen'] + a['multiline']:
+        for _ in range(per):
+            c = _site_case(rng, func, els, line)
+            if c is None:
+                break
+            out.append(c)
+    for _ in range(6 * per):
+        out.append(_nomail_case(rng))
+    for f in ('smtp_vrfy', 'smtp_noop', 'smtp_rset'):
+        out.append('c3 ' + R.hx(f.encode()))
+    return out
+
+
 def gen_cases(engine, rng, tier):
+    if engine == 'replysites':
+        return gen_sites(rng, tier)
     n = 1500 if tier == 'quick' else 20000
     out = []
     lens = [0, 1, 2, 100, 495, 500, 501, 502, 503, 504, 505, 506, 507, 508, 509, 510, 511, 512, 1008, 1009, 1010, 1011, 1012, 1013,
@@ -68,6 +273,9 @@ def gen_cases(engine, rng, tier):
     return out
 
 def nontrivial(case, c_out):
+    if case[:3] in ('c1 ', 'c2 ', 'c3 '):
+        # a reply with embedded text that had to be folded, or a multi-line literal
+        return c_out.startswith('OK') and (len(c_out.split()) >= 3 or c_out.count('0d0a') >= 2)
     return c_out.startswith('OK') and len(c_out.split()) >= 3
 
 def distribution(results):
@@ -80,11 +288,17 @@ def distribution(results):
         else: d['lines_4plus'] += 1
     return d
 
-LEVEL_TEXT = ('Machine-checked Coq theorem over an executable model of net_writen: for every s[0] in the contract and every list of '
+LEVEL_TEXT = ('Two parts. (1) Call sites: the table of every netwrite / net_writen / net_write_multiline call of Qsmtpd is regenerated from the C; Coq proves that all 70 '
+              'fixed replies are valid replies (boolean checker proved sound against the readable definition), that every net_writen template meets the contract of '
+              'net_writen for every assignment of CR/LF-free strings of any length to its holes (so C10_net_writen applies: valid folded reply, text complete and in order), '
+              'that every shape of the EHLO reply is a valid multi-line reply within its array, that dnstxt() and cb_nomail (after the two proposed fixes) turn ANY DNS / '
+              'configuration text into a CR/LF/NUL-free one and cb_nomail never overflows msg[]. The real call sites are driven under ASan and compared. (2) '
+              'Machine-checked Coq theorem over an executable model of net_writen: for every s[0] in the contract and every list of '
               'CR/LF-free strings of any length the output is a valid multi-line SMTP reply (<= 512 octets per line, same code, '
               "'-'/final separator, no bare CR/LF), carries the text completely and in order, and no buffer access is out of range. "
               'Constants are regenerated from lib/netio.c on every run; the model is tied to the C by a differential run under ASan.')
 LEVEL_NOTE = ('Trusted: Coq kernel, translator regexes, extraction (ExtrOcamlBasic), harness, generator quality of the correspondence run. '
-              'Assumed: embedded strings are free of CR/LF; netnwrite/write(2) transmit the buffer unchanged.')
-TECHNIQUE = 'Coq proof by induction over parts / loop invariant on (msg,len,off); translator-regenerated constants; model-vs-C differential run'
+              'Assumed: class invariants of the holes that are not derived (see TRUSTED_BASE); netnwrite/write(2) transmit the buffer unchanged.')
+TECHNIQUE = ('Coq proof by induction over parts / loop invariant on (msg,len,off); symbolic line checker with soundness proof for literals and the EHLO shapes; '
+             'reflection (vm_compute) over the regenerated call-site tables; translator-regenerated constants; model-vs-C differential run of the real call sites')
 DESIGN_REF = 'DESIGN.md section 5, C10'
